@@ -1301,3 +1301,44 @@ func checkAlloc(c *checkCtx) {
 	c.setExtra("executions_with_aba_suspect", suspectExecs)
 	c.setExtra("F1_reproduced_in_demonstration_stage", reproduced)
 }
+
+// ---- generic ABA-suspect detector for session-level workloads (same rule as above, keyed per *bufferList).
+// Session-level checks arm it and turn a data-integrity failure in an execution that recorded a suspect into
+// "inconclusive" (known finding F1 can corrupt anything once the allocator hands a buffer out twice).
+
+type abaListState struct {
+	popSeq uint64
+	last   []uint64
+}
+
+var (
+	abaStates   sync.Map // *bufferList -> *abaListState
+	abaSuspects uint64
+)
+
+func abaState(b *bufferList) *abaListState {
+	if v, ok := abaStates.Load(b); ok {
+		return v.(*abaListState)
+	}
+	v, _ := abaStates.LoadOrStore(b, &abaListState{last: make([]uint64, int(atomic.LoadUint32(b.cap))+1)})
+	return v.(*abaListState)
+}
+
+func armGenericABADetector() {
+	verifPopHook.Store(&verifPopHooks{
+		begin: func(b *bufferList) uint64 { return atomic.LoadUint64(&abaState(b).popSeq) },
+		won: func(b *bufferList, slotOffset uint32, begin uint64) {
+			st := abaState(b)
+			idx := int(slotOffset / (*b.capPerBuffer + bufferHeaderSize))
+			if idx >= len(st.last) {
+				return
+			}
+			seq := atomic.AddUint64(&st.popSeq, 1)
+			if last := atomic.SwapUint64(&st.last[idx], seq); last > begin {
+				atomic.AddUint64(&abaSuspects, 1)
+			}
+		},
+	})
+}
+
+func abaSuspectCount() uint64 { return atomic.LoadUint64(&abaSuspects) }
